@@ -6,6 +6,7 @@ import NxsModel.Driver.Frame
 import NxsModel.Driver.Codec
 import NxsModel.Driver.Info
 import NxsModel.Driver.Record
+import NxsModel.Driver.DevRecords
 import NxsModel.Driver.Pad
 import NxsModel.Driver.Stream
 import NxsModel.Driver.Reasm
@@ -32,6 +33,7 @@ def dispatch (toks : List String) : String :=
   | "info" :: rest => (infoOpX rest).getD "bad-op"
   | "pad" :: rest => (padOp rest).getD "bad-op"
   | "padreq" :: rest => (padReqOp rest).getD "bad-op"
+  | "rec" :: "devseq" :: rest => (devRecordsOp rest).getD "bad-op"
   | "rec" :: rest => (recordOp rest).getD "bad-op"
   | "stream" :: rest => (streamOp rest).getD "bad-op"
   | "reasm" :: rest => (reasmOp rest).getD "bad-op"
